@@ -224,8 +224,16 @@ func genCase(r *gal.Rand, b int) tcase {
 			p.Files = append(p.Files, f("top"+names[i], "T", 0o644))
 		}
 		if r.Chance(1, 25) {
-			p.Files = append(p.Files, d("etc", 0o755), d("etc/apk", 0o755), d("etc/apk/keys", 0o755),
-				f("etc/apk/keys/c07@verif-0001.rsa.pub", gal.Pick(r, []string{string(theKey.Pub), "other"}), gal.Pick(r, []int64{0o644, 0o600})))
+			for _, dn := range []string{"etc", "etc/apk", "etc/apk/keys"} {
+				dup := false
+				for _, x := range p.Files {
+					dup = dup || x.Path == dn
+				}
+				if !dup { // one package never ships a path twice (not modelled)
+					p.Files = append(p.Files, d(dn, 0o755))
+				}
+			}
+			p.Files = append(p.Files, f("etc/apk/keys/c07@verif-0001.rsa.pub", gal.Pick(r, []string{string(theKey.Pub), "other"}), gal.Pick(r, []int64{0o644, 0o600})))
 		}
 		c.Pkgs = append(c.Pkgs, p)
 	}
@@ -312,7 +320,7 @@ func stage(out string, seed uint64, tier string, b int) error {
 		addCase(w, c)
 	}
 	r := gal.NewRand(seed*3 + uint64(b))
-	n := 220
+	n := 160
 	if tier == "thorough" {
 		n = 2500
 	}
